@@ -72,6 +72,23 @@ def run(prog, rep, tier='quick'):
                     if hz0 is not None:
                         exp['hz'] = F(hz0 - (1 if scale else 0))
                     check_sink(rep, 'scale-once', cls.qname, label, 'psd', psd, exp, loc(cls.mod, cls.node))
+                    if parity == 'even':
+                        # the same object evaluated a second time (what every attribute change leads to): scaled once again, not
+                        # zero times (a "done already" flag that outlives the estimate) and not twice
+                        from ..core import St, PathEnd
+                        st2 = St({}, itp.final_heap)
+                        callm = cls.find_method('__call__')
+                        try:
+                            itp.call_function(callm, [ref], {}, st2, callm.node)
+                            obj2 = st2.heap.get(ref.oid)
+                        except PathEnd:
+                            obj2 = None
+                        psd2 = obj2.f.get(PSD_FIELD) if obj2 is not None else None
+                        if psd2 is None or (isinstance(psd2, Const) and psd2.v is None):
+                            rep.undecided('scale-once', cls.qname, label + ', second evaluation', 'no estimate stored by the second call',
+                                          loc(cls.mod, cls.node))
+                        else:
+                            check_sink(rep, 'scale-once', cls.qname, label + ', second evaluation', 'psd', psd2, exp, loc(cls.mod, cls.node))
                     # frequency axis of the same object
                     if scale is False and parity == 'even':
                         sp_ = prog.cls('psd', 'Spectrum')
